@@ -154,6 +154,9 @@ def restore(tr):
             pass
 
 
+LAST_WALK = [0]
+
+
 def shared_ids(prefix="pyscsi"):
     """ids of mutable objects reachable from module globals, class dictionaries and function defaults"""
     seen = set()
@@ -163,7 +166,7 @@ def shared_ids(prefix="pyscsi"):
         if m is not None and (name == prefix or name.startswith(prefix + ".")):
             stack.extend(vars(m).values())
     depth_guard = 0
-    while stack and depth_guard < 400000:
+    while stack and depth_guard < 5000000:
         depth_guard += 1
         v = stack.pop()
         if id(v) in seen:
@@ -190,4 +193,5 @@ def shared_ids(prefix="pyscsi"):
         elif hasattr(v, "__dict__") and type(v).__module__.startswith(prefix):
             out.add(id(v))
             stack.extend(vars(v).values())
+    LAST_WALK[0] = depth_guard
     return out
